@@ -735,6 +735,11 @@ fn expect_approve(ctx: &Ctx, cfg: &Cfg, id: &str, base: &str, size: u128) -> Exp
                     labels.push("approve-twice");
                 }
             }
+            if a.base == cfg.base && a.class != AskClass::Basic {
+                // an ask in the contract's own base denomination is plain whatever was recorded
+                failing.push("state: plain asks cannot be approved (base is the contract's own)".into());
+                labels.push("approve-plain");
+            }
             if size != a.size {
                 failing.push("size: differs from the ask's current size".into());
             }
